@@ -774,6 +774,14 @@ def apply(raw, known=None):
         if b["kind"] not in ("fn", "method"):
             rep["skipped"].append((p, "kind " + b["kind"]))
             continue
+        # a new function that encodes a header and writes it is a frame writer in its own right (the rules judge every such
+        # function as an emission route): splicing it into a connection loop would only blur it
+        core_ = bodies.get(p + "::{closure#0}") if b.get("is_async") else b
+        names_ = {(blk["term"]["callee"]["path"] if blk["term"]["callee"]["path"] == "header::Header::encode" else blk["term"]["callee"]["name"])
+                  for blk in (core_ or b)["blocks"] if blk["term"]["k"] == "call"}
+        if "header::Header::encode" in names_ and "write_all" in names_:
+            rep["skipped"].append((p, "frame writer: judged as an emission route of its own"))
+            continue
         cp = p + "::{closure#0}"
         if b.get("is_async") and cp in bodies and bodies[cp]["kind"] == "coroutine":
             c = bodies[cp]
